@@ -769,17 +769,49 @@ func emptyStringBound(cond ssa.Value) (x ssa.Value, when bool, ok bool) {
 	return x, b.Op == token.NEQ, true
 }
 
-// lengthKnownAtLeast: do the guard facts at the site (or the construction of x) establish len(x) >= need?
-func (p *Program) lengthKnownAtLeast(site ssa.Instruction, x ssa.Value, need int64) (bool, string) {
-	// constructed with a known length
+// constructedLenAtLeast: x was built with a statically known length of at least `need`: a literal
+// (`slice arr[:]`), `make(T, k)` with constant k (go/ssa turns that into `slice (new [k]E)[:k]`), a
+// constant sub-slice of an array, a constant string; a merge of such values; or a local variable read
+// back (`v := make([]T, 1); v[0].F = …` with &v taken later) when every definition that can reach the
+// read is such a value and the variable's address cannot have been handed to anyone before the read.
+func (p *Program) constructedLenAtLeast(x ssa.Value, need int64, depth int) (bool, string) {
+	if depth > 4 {
+		return false, ""
+	}
 	switch c := stripConv(x).(type) {
 	case *ssa.Slice:
-		if a, ok := c.X.(*ssa.Alloc); ok {
-			if pt, ok := a.Type().Underlying().(*types.Pointer); ok {
-				if at, ok := pt.Elem().Underlying().(*types.Array); ok && c.Low == nil && c.High == nil && at.Len() >= need {
-					return true, fmt.Sprintf("literal of length %d", at.Len())
-				}
+		a, ok := c.X.(*ssa.Alloc)
+		if !ok {
+			return false, ""
+		}
+		pt, ok := a.Type().Underlying().(*types.Pointer)
+		if !ok {
+			return false, ""
+		}
+		at, ok := pt.Elem().Underlying().(*types.Array)
+		if !ok {
+			return false, ""
+		}
+		lo, hi := int64(0), at.Len()
+		if c.Low != nil {
+			k, ok := constInt(c.Low)
+			if !ok {
+				return false, ""
 			}
+			lo = k
+		}
+		if c.High != nil {
+			k, ok := constInt(c.High)
+			if !ok {
+				return false, ""
+			}
+			hi = k
+		}
+		if hi-lo >= need {
+			if c.Low == nil && c.High == nil {
+				return true, fmt.Sprintf("literal of length %d", hi)
+			}
+			return true, fmt.Sprintf("array-backed slice of constant length %d", hi-lo)
 		}
 	case *ssa.MakeSlice:
 		if n, ok := constInt(c.Len); ok && n >= need {
@@ -789,6 +821,92 @@ func (p *Program) lengthKnownAtLeast(site ssa.Instruction, x ssa.Value, need int
 		if s, ok := constString(c); ok && int64(len(s)) >= need {
 			return true, "constant string"
 		}
+	case *ssa.Phi:
+		why := ""
+		for _, e := range c.Edges {
+			ok, w := p.constructedLenAtLeast(e, need, depth+1)
+			if !ok {
+				return false, ""
+			}
+			why = w
+		}
+		return len(c.Edges) > 0, why
+	case *ssa.UnOp:
+		if c.Op != token.MUL {
+			return false, ""
+		}
+		a, ok := c.X.(*ssa.Alloc)
+		if !ok || !p.addrPrivateUntil(a, c) {
+			return false, ""
+		}
+		// (addrPrivateUntil is the escape judgement here; storesReaching's own, coarser one also
+		// counts escapes that happen after the read)
+		sts, _ := p.storesReaching(a, c)
+		if len(sts) == 0 || p.mayHoldZero(a, c) {
+			return false, ""
+		}
+		why := ""
+		for _, s := range sts {
+			ok, w := p.constructedLenAtLeast(s.Val, need, depth+1)
+			if !ok {
+				return false, ""
+			}
+			why = w
+		}
+		return true, why + " (read back from the local variable it was assigned to)"
+	}
+	return false, ""
+}
+
+// addrPrivateUntil: nothing but plain stores to and loads of the variable `a` itself can have
+// executed before `at` — its address was not yet passed to a call, captured, stored or used to derive
+// an element/field address, so only the stores in this function define what `at` reads.
+func (p *Program) addrPrivateUntil(a *ssa.Alloc, at ssa.Instruction) bool {
+	refs := a.Referrers()
+	if refs == nil {
+		return false
+	}
+	for _, r := range *refs {
+		switch x := r.(type) {
+		case *ssa.DebugRef:
+			continue
+		case *ssa.UnOp:
+			if x.Op == token.MUL {
+				continue
+			}
+		case *ssa.Store:
+			if x.Addr == ssa.Value(a) && x.Val != ssa.Value(a) {
+				continue
+			}
+		}
+		rb, ab := r.Block(), at.Block()
+		if rb == nil || ab == nil {
+			return false
+		}
+		if rb == ab {
+			if instrIndex(r) < instrIndex(at) {
+				return false
+			}
+			// later in the same block: precedes `at` only around a cycle through the block
+			for _, s := range rb.Succs {
+				if blockReachableFrom(s, ab) {
+					return false
+				}
+			}
+			continue
+		}
+		if blockReachableFrom(rb, ab) {
+			return false
+		}
+	}
+	return true
+}
+
+// lengthKnownAtLeast: do the guard facts at the site (or the construction of x) establish len(x) >= need?
+func (p *Program) lengthKnownAtLeast(site ssa.Instruction, x ssa.Value, need int64) (bool, string) {
+	// constructed with a known length
+	if ok, why := p.constructedLenAtLeast(x, need, 0); ok {
+		return true, why
 	}
 	for _, f := range p.FactsAt(site.Block()) {
 		for _, lb := range lenBounds(f.Cond) {
